@@ -40,7 +40,8 @@ TEXT = {
             "reset library state; single-thread histories with repeats; fresh-interpreter configuration leg (pre-imports, stdout encodings, "
             "hash seeds); deep argument snapshots around every verifier/validator call in the other worlds; wrap aliasing probes.",
             "Pre-emption granularity is the traced line (opcode events are not replay-stable under the adaptive interpreter and were "
-            "dropped); a GIL switch inside a C call is not modelled.", "sec. 7 C12"),
+            "dropped); a thread switch inside one source line or inside a C call is not modelled, and runs use at most 16 keys - the one "
+            "independent seeded change that escaped (seeded/C13-C: eviction race in a 128-entry cache) needs both.", "sec. 7 C12, 13.8"),
     "C17": ("exploration", "Real processes for each entry point (console script, python -m conda_content_trust, python -m "
             "conda_content_trust.cli) x file pairs drawn from simulated histories (valid successors, key_mgr under root, every "
             "attack-catalogue document, malformed / empty / missing / directory / BOM files) x seeded environments; exit status and "
